@@ -119,7 +119,7 @@ def c07_functional(code, mode, P, D):
     o.append('void harness(void) {')
     o.append('  VP_INPUT(vp_in_t, in);')
     o.append('  VP_ASSUME(in.plen <= %d); VP_ASSUME(in.dlen <= %d); VP_ASSUME(in.dlen %% %d == 0);' % (P, D, size))
-    o.append('  uint8_t *obj = vp_obj_from(in.mem, %d);' % M)
+    o.append('  uint8_t *obj = vp_pdu_from(in.mem, %d);' % M)
     o += _set_header('obj', mode, '0x%02x' % code)
     o.append('  static uint8_t ref[%d]; memcpy(ref, obj, %d);' % (M, M))
     o.append('  Avtp_Vss_t *pdu = (Avtp_Vss_t *)obj;')
@@ -151,7 +151,7 @@ def c07_reserved_mode(P, D, code):
     o.append('void harness(void) {')
     o.append('  VP_INPUT(vp_in_t, in);')
     o.append('  VP_ASSUME(in.plen <= %d); VP_ASSUME(in.dlen <= %d); VP_ASSUME(in.mode == 2 || in.mode == 3);' % (P, D))
-    o.append('  uint8_t *obj = vp_obj_from(in.mem, %d);' % M)
+    o.append('  uint8_t *obj = vp_pdu_from(in.mem, %d);' % M)
     o += _set_header('obj', 'in.mode', '0x%02x' % code)
     o.append('  Avtp_Vss_t *pdu = (Avtp_Vss_t *)obj;')
     o.append('  VssPath_t path; memset(&path, 0, sizeof path);')
@@ -182,7 +182,7 @@ def c07_reserved_datatype(P, D):
     o.append('  uint8_t *pbuf = vp_obj_from(in.path, %d);' % max(P, 1))
     o.append('  VssDataUint8Array_t sv; sv.data_length = in.dlen; sv.data = vp_obj_from(in.src, %d);' % max(D, 8))
     o.append('  VssDataUint8Array_t *slot = &sv; VssData_t val; memcpy(&val, in.src, 8);')
-    o.append('  uint8_t *obj = vp_obj_from(in.mem, %d);' % M)
+    o.append('  uint8_t *obj = vp_pdu_from(in.mem, %d);' % M)
     o += _set_header('obj', 'in.mode', 'in.dt')
     o.append('  Avtp_Vss_t *pdu = (Avtp_Vss_t *)obj;')
     o.append('  VssPath_t path; memset(&path, 0, sizeof path);')
@@ -214,7 +214,7 @@ def c07_extent(code, mode, plen, count):
     o.append('typedef struct { uint8_t mem[%d]; uint8_t path[%d]; uint32_t sid; uint8_t src[%d]; } vp_in_t;' % (M, max(plen, 1), max(dlen, 8)))
     o.append('void harness(void) {')
     o.append('  VP_INPUT(vp_in_t, in);')
-    o.append('  uint8_t *obj = vp_obj_from(in.mem, %d);' % M)
+    o.append('  uint8_t *obj = vp_pdu_from(in.mem, %d);' % M)
     o += _set_header('obj', mode, '0x%02x' % code)
     o.append('  uint8_t ref[%d]; memcpy(ref, obj, %d);' % (M, M))
     o.append('  Avtp_Vss_t *pdu = (Avtp_Vss_t *)obj;')
@@ -279,7 +279,7 @@ def c08_functional(code, mode, P, D):
     o += _set_header('ref', mode, '0x%02x' % code)
     o += _ref_path(mode, P, 'in.plen')
     o += _ref_value(code, D, 'in.dlen')
-    o.append('  uint8_t *obj = vp_obj_from(ref, %d); Avtp_Vss_t *pdu = (Avtp_Vss_t *)obj;   /* well-formed message from the REFERENCE encoder */' % M)
+    o.append('  uint8_t *obj = vp_pdu_from(ref, %d); Avtp_Vss_t *pdu = (Avtp_Vss_t *)obj;   /* well-formed message from the REFERENCE encoder */' % M)
     o.append('  VP_ASSERT(Avtp_Vss_CalcVssPathLength(pdu) == pl, "C08 reported on-wire path size is correct");')
     o.append('  VssPath_t pout; memset(&pout, 0, sizeof pout);')
     if mode == W.VSS_ADDR_INTEROP:
@@ -314,7 +314,7 @@ def c08_extent(code, mode, plen, count):
     o.append('  VP_INPUT(vp_in_t, in);')
     o.append('  uint8_t ref[%d]; memcpy(ref, in.mem, %d);' % (M, M))
     o += _set_header('ref', mode, '0x%02x' % code)
-    o.append('  uint8_t *obj = vp_obj_from(ref, %d); Avtp_Vss_t *pdu = (Avtp_Vss_t *)obj;' % M)
+    o.append('  uint8_t *obj = vp_pdu_from(ref, %d); Avtp_Vss_t *pdu = (Avtp_Vss_t *)obj;' % M)
     o += _ref_path(mode, plen, '%du' % plen, concrete=plen)
     o += _ref_value(code, dlen, '%du' % dlen, conc=dlen)
     # library encoder produces the message
